@@ -28,6 +28,20 @@ class P(Prop):
         ops, n = [], n0
         live = []          # iterators created since the last modification (older ones are never touched again)
         niter = 0
+        if rng.random() < 0.35:
+            # a reading phase on the untouched (not yet dirty) file: iterators stepped in between random accesses
+            for _ in range(rng.randint(2, 8)):
+                q = rng.random()
+                if q < 0.3 or not live:
+                    ops.append([15]); live.append(niter); niter += 1
+                elif q < 0.65:
+                    ops.append([16, rng.choice(live)])
+                elif q < 0.85:
+                    ops.append([10, rng.randint(-n - 1, n)])
+                elif q < 0.93:
+                    ops.append([12])
+                else:
+                    ops.append([13])
         for _ in range(nops):
             if rng.random() < 0.25:
                 if live and rng.random() < 0.7:
